@@ -121,6 +121,7 @@ type Unit struct {
 	usedLemmas map[string]bool
 	ancCache   map[int]map[int]bool
 	ancMu      sync.Mutex
+	safetyOnly bool
 	strKeyDecl bool
 	strKeys    []strKeyRec
 	noFrameAxioms bool
@@ -244,7 +245,9 @@ func (u *Unit) typingAxiom(arr, site, limit string) {
 		if pt, ok := l.T.Underlying().(*types.Pointer); ok {
 			sz = safeSizeOf(pt.Elem())
 		}
-		u.ctx.assert("typing", fmt.Sprintf("(forall ((a! Int)) (! (or (= (select %s a!) 0) (and (<= 1 (select %s a!)) (<= (+ (select %s a!) %d) %s))) :pattern ((select %s a!))))", arr, arr, arr, sz, limit, arr))
+		// only cells that exist in this version of the heap: cells at or above the allocation mark are described by
+		// whoever allocates them later (a callee's fresh objects may live in the same array version)
+		u.ctx.assert("typing", fmt.Sprintf("(forall ((a! Int)) (! (=> (< a! %s) (or (= (select %s a!) 0) (and (<= 1 (select %s a!)) (<= (+ (select %s a!) %d) %s)))) :pattern ((select %s a!))))", limit, arr, arr, arr, sz, limit, arr))
 		return
 	}
 	if strings.HasPrefix(site, "map.") && strings.Contains(site, ".val#") {
@@ -254,7 +257,7 @@ func (u *Unit) typingAxiom(arr, site, limit string) {
 				sz = safeSizeOf(pt.Elem())
 			}
 			ks := mapKeySort[site]
-			u.ctx.assert("typing", fmt.Sprintf("(forall ((r! Int) (k! %s)) (! (or (= (select (select %s r!) k!) 0) (and (<= 1 (select (select %s r!) k!)) (<= (+ (select (select %s r!) k!) %d) %s))) :pattern ((select (select %s r!) k!))))", ks, arr, arr, arr, sz, limit, arr))
+			u.ctx.assert("typing", fmt.Sprintf("(forall ((r! Int) (k! %s)) (! (=> (< r! %s) (or (= (select (select %s r!) k!) 0) (and (<= 1 (select (select %s r!) k!)) (<= (+ (select (select %s r!) k!) %d) %s)))) :pattern ((select (select %s r!) k!))))", ks, limit, arr, arr, arr, sz, limit, arr))
 		}
 	}
 }
@@ -511,7 +514,7 @@ func (u *Unit) newFrame(fn *ssa.Function, chain string) *Frame {
 		u.ordCache[fn] = computeOrdinals(fn)
 	}
 	f.ords = u.ordCache[fn]
-	f.ct = u.db.forFunc(f.key)
+	f.ct = u.ctFor(f.key)
 	return f
 }
 
